@@ -24,6 +24,29 @@ def preimage(i):
 def phash(i):
     return hashlib.sha256(preimage(i)).digest()
 
+def near_hashes(h):
+    """32-byte strings that are NOT h but agree with it under weak comparisons: one bit flipped at either end, the same
+    bit flipped in two bytes (same XOR and OR folds), two bytes exchanged (same multiset of bytes, same sum), reversed,
+    rotated by one byte, all but the last / first byte equal, one's complement."""
+    h = bytes(h); out = []
+    def mod(f):
+        b = bytearray(h); f(b); b = bytes(b)
+        if b != h: out.append(b)
+    mod(lambda b: b.__setitem__(0, b[0] ^ 1))
+    mod(lambda b: b.__setitem__(31, b[31] ^ 0x80))
+    def two(b): b[3] ^= 0x10; b[17] ^= 0x10
+    mod(two)
+    def two_adjacent(b): b[30] ^= 1; b[31] ^= 1
+    mod(two_adjacent)
+    def swap(b):
+        j = next((k for k in range(1, 32) if b[k] != b[0]), 1); b[0], b[j] = b[j], b[0]
+    mod(swap)
+    out.append(h[::-1]); out.append(h[1:] + h[:1])
+    mod(lambda b: b.__setitem__(31, (b[31] + 1) & 0xff))
+    mod(lambda b: b.__setitem__(0, (b[0] + 0x80) & 0xff))
+    out.append(bytes(x ^ 0xff for x in h))
+    return [x for i, x in enumerate(out) if x != h and x not in out[:i]]
+
 def payload(invoice=None, amount_tlv=None, extra=(), meta_extra=(), raw_meta=None, prefix=True):
     """Onion payload as lightningd hands it over: BigSize length prefix + TLV stream."""
     meta = []
